@@ -17,7 +17,9 @@ func init() {
 			"absence, Remove deletes exactly id and reports the pre-state presence, Get is a plain lookup; no other method writes the map (mod-ref summaries); R20.2 no method returns " +
 			"the map itself (only clones, elements or iterators) and constructors/decoders install a freshly allocated map; R20.3 the document loader assigns policy<i> with i the " +
 			"index in the parsed list, stamps the file name on every policy (loop without early exit), and returns no partial set on error; R20.4 the text encoder sorts ids " +
-			"before writing; R20.5 Policy and PolicySet carry no other mutable field in which compiled state could go stale. Not decided: Go's own map semantics.",
+			"before writing; R20.5 Policy and PolicySet carry no other mutable field in which compiled state could go stale; R20.6 document order does not depend on goroutine completion order; " +
+			"R20.7 an iterator handed out by the set reads the set's state when it runs, not when it was made (the decoders replace the map, so a captured map is a stale copy); R20.8 a decoder " +
+			"touches the receiver only on paths that cannot end in an error (a rejected document leaves the set as it was). Not decided: Go's own map semantics.",
 		Run: runC20,
 	})
 }
@@ -285,6 +287,8 @@ func runC20(p *Prog, r *Report) {
 		})
 	}
 
+	c20LazyIterators(p, r, ps, st)
+	c20FailedDecode(p, r, ps)
 	checkLoader(p, r)
 	checkSortedIDs(p, r)
 	// document order of a loaded list (and with it the policy<n> ids) must not depend on goroutine completion order
@@ -548,4 +552,188 @@ func checkSortedIDsAs(p *Prog, r *Report, rule string) {
 		}
 	}
 	r.Check(good && overSorted, rule, fnQual(fn), p.pos(sortCall.Pos()), "ids are sorted before any byte is written and the writing loop walks the sorted ids", "the sort of the ids does not dominate every write, or the writing loop does not walk the sorted slice")
+}
+
+// R20.7 — iterators read the set when they run. The decoders install a new map in the receiver, so a
+// method that loads the map field when the iterator is *made* and hands the loaded map to the
+// iterator yields a sequence over the contents of that moment: after a reload it keeps producing
+// the old policies. Every method of *PolicySet with a function-typed result must therefore leave the
+// load of the state to the function it returns.
+func c20LazyIterators(p *Prog, r *Report, ps *types.Named, st *types.Struct) {
+	const rule = "R20.7-iterate-current-contents"
+	// is the state field ever replaced? (whole-struct store through a receiver, or a store to the field)
+	replaced := false
+	for _, fn := range p.Funcs {
+		if fnPkgPath(fn) != pRoot || fn.Signature.Recv() == nil || len(fn.Params) == 0 {
+			continue
+		}
+		forEachInstr(fn, func(in ssa.Instruction) {
+			if sto, ok := in.(*ssa.Store); ok {
+				if sto.Addr == fn.Params[0] && typeIs(fn.Params[0].Type(), pRoot, "PolicySet") {
+					replaced = true
+				}
+				if fa, ok := sto.Addr.(*ssa.FieldAddr); ok && fa.X == fn.Params[0] && typeIs(fn.Params[0].Type(), pRoot, "PolicySet") {
+					replaced = true
+				}
+			}
+		})
+	}
+	n := 0
+	ms := p.SSA.MethodSets.MethodSet(types.NewPointer(ps))
+	for i := 0; i < ms.Len(); i++ {
+		fn := p.SSA.MethodValue(ms.At(i))
+		if fn == nil || fn.Synthetic != "" || fn.Blocks == nil {
+			if fn != nil && fn.Synthetic != "" {
+				if obj, ok := ms.At(i).Obj().(*types.Func); ok {
+					fn = p.SSA.FuncValue(obj)
+				}
+			}
+			if fn == nil || fn.Blocks == nil {
+				continue
+			}
+		}
+		res := fn.Signature.Results()
+		if res.Len() != 1 {
+			continue
+		}
+		if _, isFn := res.At(0).Type().Underlying().(*types.Signature); !isFn {
+			continue
+		}
+		n++
+		q := fnQual(fn)
+		if _, isPtr := fn.Signature.Recv().Type().(*types.Pointer); !isPtr {
+			// a value receiver is a copy of the struct made at the call: same staleness
+			r.Check(!replaced, rule, q, p.pos(fn.Pos()), "value receiver, and the state field is never replaced", "the iterator method has a value receiver: it iterates the copy of the set made when it was called, which a later decode does not update")
+			continue
+		}
+		early := ""
+		forEachInstr(fn, func(in ssa.Instruction) {
+			ld, ok := in.(*ssa.UnOp)
+			if !ok || ld.Op != token.MUL {
+				return
+			}
+			if fa, ok := ld.X.(*ssa.FieldAddr); ok && fa.X == fn.Params[0] {
+				early = p.pos(ld.Pos())
+			}
+			if ld.X == fn.Params[0] {
+				early = p.pos(ld.Pos())
+			}
+		})
+		if early != "" && replaced {
+			r.Viol(rule, q, p.pos(fn.Pos()), "the method reads the set's state when the iterator is made ("+early+") rather than when it runs; the decoders replace that state, so a sequence obtained before a reload keeps yielding the old policies — iteration (and authorization through a stored sequence) no longer depends on the current contents only")
+		} else {
+			r.OK(rule, q, p.pos(fn.Pos()), boolStr(early == "", "the returned function reads the state through the receiver when it runs", "state read early, but the state field is never replaced"))
+		}
+	}
+	if n == 0 {
+		r.Anchor(rule, "methods of *PolicySet that return an iterator")
+	}
+}
+
+// R20.8 — a rejected document leaves the set unchanged: in the decoders of *PolicySet no write through
+// the receiver may be followed, on any path, by a return with an error.
+func c20FailedDecode(p *Prog, r *Report, ps *types.Named) {
+	const rule = "R20.8-failed-decode-keeps-set"
+	n := 0
+	ms := p.SSA.MethodSets.MethodSet(types.NewPointer(ps))
+	for i := 0; i < ms.Len(); i++ {
+		fn := p.SSA.MethodValue(ms.At(i))
+		if fn == nil || fn.Blocks == nil || !strings.HasPrefix(fn.Name(), "Unmarshal") {
+			continue
+		}
+		res := fn.Signature.Results()
+		if res.Len() == 0 || !isErrorType(res.At(res.Len()-1).Type()) {
+			continue
+		}
+		n++
+		q := fnQual(fn)
+		// blocks that can reach a return of a possibly non-nil error
+		errRet := map[*ssa.BasicBlock]bool{}
+		for _, b := range fn.Blocks {
+			if ret, ok := lastInstr(b).(*ssa.Return); ok {
+				e := ret.Results[len(ret.Results)-1]
+				if c, isC := e.(*ssa.Const); isC && c.IsNil() {
+					continue
+				}
+				errRet[b] = true
+			}
+		}
+		canErr := map[*ssa.BasicBlock]bool{}
+		changed := true
+		for changed {
+			changed = false
+			for _, b := range fn.Blocks {
+				if canErr[b] {
+					continue
+				}
+				if errRet[b] {
+					canErr[b] = true
+					changed = true
+					continue
+				}
+				for _, s := range b.Succs {
+					if canErr[s] {
+						canErr[b] = true
+						changed = true
+					}
+				}
+			}
+		}
+		rootsAtRecv := func(v ssa.Value) bool {
+			for d := 0; d < 8; d++ {
+				switch x := v.(type) {
+				case *ssa.Parameter:
+					return x == fn.Params[0]
+				case *ssa.FieldAddr:
+					v = x.X
+				case *ssa.IndexAddr:
+					v = x.X
+				case *ssa.UnOp:
+					v = x.X
+				default:
+					return false
+				}
+			}
+			return false
+		}
+		bad := ""
+		writes := 0
+		forEachInstr(fn, func(in ssa.Instruction) {
+			var addr ssa.Value
+			switch x := in.(type) {
+			case *ssa.Store:
+				addr = x.Addr
+			case *ssa.MapUpdate:
+				addr = x.Map
+			default:
+				return
+			}
+			if !rootsAtRecv(addr) {
+				return
+			}
+			writes++
+			// an error return later in the same block or in a successor
+			b := in.Block()
+			later := errRet[b]
+			for _, s := range b.Succs {
+				if canErr[s] {
+					later = true
+				}
+			}
+			if later {
+				bad = p.pos(in.Pos())
+			}
+		})
+		switch {
+		case bad != "":
+			r.Viol(rule, q, p.pos(fn.Pos()), "the decoder writes through its receiver at "+bad+" and can still return an error afterwards: a rejected document leaves the set partly overwritten instead of unchanged")
+		case writes == 0:
+			r.Undec(rule, q, p.pos(fn.Pos()), "the decoder never writes its receiver")
+		default:
+			r.OK(rule, q, p.pos(fn.Pos()), "the receiver is written only where no error return can follow")
+		}
+	}
+	if n == 0 {
+		r.Anchor(rule, "decoders of *PolicySet")
+	}
 }
